@@ -433,7 +433,7 @@ func init() {
 			"oracle: reflective location-free comparison of the original tree and the tree of its printed form, plus print idempotence; distinct = AST node types printed",
 		NumCases: func(tier string) int {
 			if tier == "thorough" {
-				return len(elkCorpus()) + 3_000_000
+				return len(elkCorpus()) + 600_000
 			}
 			return len(elkCorpus()) + 120_000
 		},
